@@ -176,7 +176,14 @@ func runC08(t *testing.T, c *choice.Stream, r *Result, opt RunOpt) {
 				}
 				e.W.SetPlan(v.sizes, v.gaps)
 				e.W.ShortReads = v.short
-				derr := cl.Do(ctx, b.rs.query)
+				qctx := ctx
+				if b.rs.farDeadline > 0 {
+					// a deadline far beyond the whole exchange must change nothing
+					var cancel context.CancelFunc
+					qctx, cancel = context.WithTimeout(ctx, b.rs.farDeadline)
+					defer cancel()
+				}
+				derr := cl.Do(qctx, b.rs.query)
 				var sb strings.Builder
 				for _, ev := range b.rs.rec.Events {
 					sb.WriteString(ev)
